@@ -34,11 +34,15 @@ func (e *Env) IVs() []*IV {
 		return e.ivs
 	}
 	e.ivDone = true
+	e.ivBuild = true
 	for _, l := range e.loops {
 		if iv := e.recogniseIV(l); iv != nil {
 			e.ivs = append(e.ivs, iv)
 		}
 	}
+	e.ivBuild = false
+	// values seen while recognising the loops were evaluated without resolving accumulators
+	e.cache = map[ssa.Value]Poly{}
 	return e.ivs
 }
 
